@@ -4,9 +4,10 @@ From Coq Require Import String Ascii ZArith QArith List Bool.
 From RV Require Import Base.Val Gen.Torsion Gen.Parser Gen.ParserV2.
 Import ListNotations.
 
-(* pin: both residue models test connectivity with the same constant: O3'-P below 1.5 * 1.6 = 2.4 A *)
-Lemma C15_pin_connectivity : op_distance_v1 == op_distance_v2 /\ connect_factor * op_distance_v1 == 24 # 10.
-Proof. split; vm_compute; reflexivity. Qed.
+(* pin: both residue models test connectivity by exactly the statements "distance = norm(O3' - P); return distance < 1.5 * constant"
+   with the same constant: O3'-P below 1.5 * 1.6 = 2.4 A *)
+Lemma C15_pin_connectivity : connect_as_modelled = true /\ op_distance_v1 == op_distance_v2 /\ connect_factor * op_distance_v1 == 24 # 10.
+Proof. split; [reflexivity | split; vm_compute; reflexivity]. Qed.
 Print Assumptions C15_pin_connectivity.
 
 (* pin: both PDB readers slice the same columns for the fields they share *)
